@@ -26,8 +26,9 @@ def fault_cfg(tier):
 def fault_params(tier):
     D, L = fault_cfg(tier)
     shp = SHAPES_Q if tier == "quick" else SHAPES_T
-    ps = [P("shape", 0, len(shp) - 1), P("fnode", 0, 3 if tier == "quick" else 4), P("phase", 0, 2), P("moment", 0, 1),
-          P("exckind", 0, 1), P("svc", 0, 4), P("byref", 0, 1), P("notimeout", 0, 1)]
+    ps = [P("shape", 0, len(shp) - 1), P("fnode", 0, 3 if tier == "quick" else 4), P("phase", 0, 2), P("moment", 0, 1), P("svc", 0, 4)]
+    # quick: ONE of {plain exception, ComponentStartError instance, one-member group, type given by reference, timeout=None}; thorough: the full product
+    ps += [P("flavour", 0, 4)] if tier == "quick" else [P("exckind", 0, 2), P("byref", 0, 1), P("notimeout", 0, 1)]
     for j in range(D):
         ps += [P(f"gap{j}", 0, L), P(f"arm{j}", 0, 4)]
     return ps
@@ -42,16 +43,25 @@ def fault_fn(a, tier):
     fnode = pick(a["fnode"], n)
     phase = pick(a["phase"], 3)
     moment = pick(a["moment"], 2) if phase else 0
-    exckind = pick(a["exckind"], 2)
+    if tier == "quick":
+        flavour = pick(a["flavour"], 5)
+        exckind = flavour if flavour < 3 else 0
+    else:
+        flavour = None
+        exckind = pick(a["exckind"], 3)
     # 0: nothing; 1: other nodes start a service slowly in start(); 2: ... whose startup stalls forever;
     # 3: other nodes start a task factory and a task with a slow start-up in it
     # 4: other nodes are blocked in get_resource() for something nobody provides when the failure strikes
     svc = pick(a["svc"], 5)
-    byref = pick(a["byref"], 2)  # the failing component's type is given as a "module:attr" string
-    notimeout = pick(a["notimeout"], 2)  # timeout=None: the documented way of disabling the start timeout
+    # byref: the failing component's type is given as a "module:attr" string; notimeout: timeout=None, the documented way of disabling the start timeout
+    if flavour is not None:
+        byref, notimeout = int(flavour == 3), int(flavour == 4)
+    else:
+        byref, notimeout = pick(a["byref"], 2), pick(a["notimeout"], 2)
     tape = DeviationTape([(a[f"gap{j}"], a[f"arm{j}"]) for j in range(D)], L)
     env = Env()
-    exc = Boom("boom") if exckind == 0 else ComponentStartError("starting", "bogus.path", Component)
+    exc = [Boom("boom"), ComponentStartError("starting", "bogus.path", Component),
+           ExceptionGroup("raised by a task group of the component's own", [Boom("the only member")])][exckind]
     nodes = []
     # a start-up that stalls forever must not sit below the failing start(): that start() would never be reached
     tmp = [NodeSpec(i, parents[i]) for i in range(n)]
@@ -174,7 +184,7 @@ FAULT = Harness(
     cube=lambda tier: 4,
     title="one component fails in one phase at one moment; every tree shape; deviation-bounded schedules",
     bound_text=lambda tier: f"all rooted trees with 1..{4 if tier == 'quick' else 5} components x failing component x phase{{creating,preparing,starting}} x "
-    "moment{first statement, after a checkpoint} x exception{plain Exception, a ComponentStartError instance} x type given as class / 'module:attr' string x timeout{1000, None} x other components "
+    "moment{first statement, after a checkpoint} x exception{plain Exception, a ComponentStartError instance, an ExceptionGroup with one member} x type given as class / 'module:attr' string x timeout{1000, None} x other components "
     "{no service, start a service task with a slow start-up, with a start-up that never completes, start a task-factory task with a slow start-up, wait in get_resource() for a resource nobody provides}; FIFO schedule with "
     + ("one deviation within the first 8 decisions" if tier == "quick" else "one deviation within the first 12 decisions, trees of up to 5 components"),
     oracle="ComponentStartError(phase, path, class) with __cause__ the original exception object; no start() of any ancestor; no startup/watchdog "
@@ -443,4 +453,96 @@ AGAIN = Harness(
     stubs=STUBS_COMMON,
 )
 
-HARNESSES = [FAULT, FACTORY, AGAIN, TIME]
+
+# ------------------------------------------------------------------------------ F-nested-timeout
+def nt_params(tier):
+    return [P("outer", 0, 2), P("host", 0, 1), P("stall", 0, 1), P("inner", 1, 6)]
+
+
+def nt_fn(a, tier):
+    """A component starts a tree of its own from start() with its OWN timeout; that tree stalls (or not)."""
+    from symkit.choose import resumed
+
+    outer_kind, host_is_child, stall = pick(a["outer"], 3), pick(a["host"], 2), pick(a["stall"], 2)
+    inner_t = a["inner"]  # symbolic number of ticks
+    outer_t = [None, 1000, 50][outer_kind]
+    log = []
+
+    class Slow(Component):
+        async def start(self):
+            log.append("inner start")
+            if stall:
+                await anyio.sleep_forever()
+            await anyio.sleep(1)
+            log.append("inner started")
+
+    class Host(Component):
+        async def start(self):
+            log.append("host start")
+            await start_component(Slow, {}, timeout=inner_t)
+            log.append("host done")
+
+    class Top(Component):
+        def __init__(self):
+            self.add_component("host", Host)
+
+        async def start(self):
+            log.append("top start")
+
+    out = {}
+
+    async def main():
+        async with Context():
+            try:
+                await start_component(Top if host_is_child else Host, {}, timeout=outer_t)
+                out["res"] = None
+            except BaseException as e:  # noqa
+                out["res"] = e
+            out["at"] = anyio.current_time()
+            n = len(log)
+            await anyio.sleep(100)
+            out["late"] = log[n:]
+
+    _, escaped, k = run(main)
+    summary = {"outer_timeout": outer_t, "host": "a child of the root" if host_is_child else "the root itself", "nested_tree": "stalls forever" if stall else "needs 1 tick",
+               "nested_timeout": "symbolic, 1..6 ticks"}
+    if escaped is not None:
+        return FAIL(f"nested-timeout:escaped:{type(escaped).__name__}", repr(escaped), summary)
+    e = out["res"]
+    with resumed():
+        in_time = (not stall) and bool(inner_t > 1)
+        at_ok_fail = bool(out["at"] == inner_t)
+    if in_time:
+        if e is not None or "inner started" not in log or ("top start" not in log and host_is_child):
+            return FAIL("nested-timeout:in-time-nested-startup-affected", f"{e!r} {log}", summary)
+        return OK(summary, True)
+    if not stall:
+        return OK(summary, nontrivial=False)  # exact tie between the nested finishing time and its timeout: not judged
+    path = "host" if host_is_child else ""
+    if not isinstance(e, ComponentStartError) or (e.phase, e.path) != ("starting", path) or not isinstance(e.__cause__, TimeoutError):
+        return FAIL(f"nested-timeout:not-reported-as-the-hosts-failure:{type(e).__name__}:outer={outer_t}", f"{e!r} cause={getattr(e, '__cause__', None)!r} log={log}", summary)
+    if not at_ok_fail:
+        return FAIL("nested-timeout:raised-at-the-wrong-time", f"at={out['at']}", summary)
+    if out["late"] or "top start" in log or "host done" in log:
+        return FAIL("nested-timeout:startup-work-continued", f"{log} late={out['late']}", summary)
+    return OK(summary, True)
+
+
+NTIME = Harness(
+    prop="C07",
+    name="F-nested-timeout",
+    fn=guard(nt_fn),
+    params=nt_params,
+    cube=lambda tier: 3,
+    title="a nested start_component() call with its own (symbolic) timeout inside a component's start()",
+    bound_text=lambda tier: "host component (the root, or a child of the root) calls start_component(Inner, timeout=t) from start(), t symbolic in 1..6 ticks; Inner stalls forever or needs "
+    "one tick; outer timeout None / 1000 / 50",
+    oracle="stalled nested tree: exactly at time t the outer start_component raises ComponentStartError('starting', host) caused by TimeoutError, no ancestor start(), nothing runs "
+    "afterwards; nested tree finishing in time: unaffected",
+    outside="exact ties",
+    stubs=STUBS_COMMON + ("the nested timeout is a symbolic integer handed to the real watchdog; timer order decided by z3",),
+    tree_check=False,
+    realize_samples=True,
+)
+
+HARNESSES = [FAULT, FACTORY, AGAIN, NTIME, TIME]
